@@ -86,6 +86,9 @@ def handle (line : String) : String :=
   | ["CRB", x] => ClockRate.handleCRB x
   | "PP" :: args => PerfCalc.handlePP args
   | ["MSKILL", rate, cols, take, objs] => SkillWire.handleMSKILL rate cols take objs
+  | ["PIPE", "taiko", bytes, mods, rate, take, sum0, hw, "G"] => PipelineWire.handlePIPEtaikoG bytes mods rate take sum0 hw
+  | ["PIPE", "taiko", bytes, mods, rate, take, sum0, hw] => PipelineWire.handlePIPEtaiko bytes mods rate take sum0 hw
+  | ["TREC", clock, objs, bpms] => PipelineWire.handleTREC clock objs bpms
   | ["PIPE", mode, bytes, mods, rate, take] => PipelineWire.handlePIPE mode bytes mods rate take
   | ["TSKILL", sum0, hw, flags, n, recs] => SkillWire.handleTSKILL sum0 hw flags n recs
   | ["CSKILL", rate, cs, take, objs] => SkillWire.handleCSKILL rate cs take objs
